@@ -28,6 +28,9 @@ def run(tier, seed):
         pos = common.spec_to_code(chk, cfgs, make_real, relax=RELAX, neg_cfgs=neg, tag=tag)
         common.code_to_spec(chk, cfgs, make_real, tag=tag,
                             expect_feasible=(lambda c, pos=pos: bool(pos and pos['behs'].get(c['id']))))
+    # long horizons: random walks of the specification (TLC -simulate) replayed into the implementation
+    common.long_horizon(chk, tier, seed, [('storage', fam.fam_storage), ('storage_mip', fam.fam_storage_mip), ('storage_hold_start', fam.fam_storage_hold_start),
+                                          ('storage_hold', fam.fam_storage_hold_T)], RELAX)
     # larger seeded portfolios (T = 12 / 24, up to 10 assets): TLC validates the optimiser's output, it does not enumerate
     common.code_to_spec(chk, fam.fam_random(seed + 200, n=16 if tier == 'quick' else 80, T=12 if tier == 'quick' else 24, storages=(2, 4)), lambda c: R.Real(c), tag='random', solvers=('SCIPY', None))
     chk.assumptions += ['storage parameters in the documented domain: 0 <= start_level <= size, rates >= 0, efficiency > 0',
